@@ -11,6 +11,20 @@ CLAIMED = {
             "pyvc engine, z3; facets integer-valued; dispatch closed-world; see evidence.assumptions",
             "contract-based deductive verification: VCs from the Python AST of the live functions, z3/cvc5",
             "DESIGN.md section 4 C05"),
+    'C13': ("Loop-invariant proof (z3, unbounded) of the bounded body reader for all limits, block sizes, declared lengths "
+            "and stream behaviours; PEP 3333 obligations as ghost-trace VCs over every path of the real handle_rpc / "
+            "handle_error / handle_wsdl_request / __finalize bodies with the user function, the client (abort) and the "
+            "request kind havocked.",
+            "wsgi.input.read(n) returns <= n bytes; WSGI server calls close(); listeners return; concrete one-method app",
+            "contract-based deductive verification: inductive invariant + per-path ghost-trace VCs from the live AST, z3",
+            "DESIGN.md section 4 C13"),
+    'C14': ("Event-trace contract (specification automaton) checked on every symbolic path of the real request pipeline "
+            "(WsgiApplication.__call__ and everything below it, interpreted from the working tree) with a fork at every "
+            "havocked party: request kind x single failing listener (Fault / non-Fault, application/service/method level) "
+            "x user-function outcome, for seven protocol families.",
+            "listeners of exception/closed events return normally; one context per request; see evidence.assumptions",
+            "contract-based verification: per-path ghost-trace VCs over the interpreted real pipeline (havocked callees fork)",
+            "DESIGN.md section 4 C14"),
 }
 NOT_YET = {}
 for i in range(1, 19):
